@@ -484,7 +484,8 @@ pub fn kappa(cell: &Cell) -> f64 {
         Fam::ChiSquared | Fam::StudentT => g(0).max(1.0 / g(0)),
         Fam::FisherF => g(0).max(g(1)).max(1.0 / g(0)).max(1.0 / g(1)),
         Fam::Beta => g(0).max(g(1)).max(1.0 / g(0)).max(1.0 / g(1)),
-        Fam::Pert => (g(3) + 2.0).max((g(0).abs().max(g(1).abs())) / (g(1) - g(0)).abs()),
+        Fam::Pert | Fam::PertMean => (g(3) + 2.0).max((g(0).abs().max(g(1).abs())) / (g(1) - g(0)).abs()) * if cell.fam == Fam::PertMean { 1.0 + 2.0 / g(3).max(1e-3) } else { 1.0 },
+        Fam::LogNormalMeanCv => g(1).max(1.0 / g(1).max(1e-3)).max(g(0).ln().abs()),
         Fam::Pareto | Fam::Weibull => g(1).max(1.0 / g(1)),
         Fam::Frechet => g(2).max(1.0 / g(2)),
         Fam::SkewNormal => g(2),
@@ -766,6 +767,42 @@ pub fn reflaw(cell: &Cell) -> Option<RefLaw> {
             )
         }
         Fam::Nig => nig_law(g(0), g(1)),
+        Fam::NormalMeanCv => {
+            // documented: mean mu, cv = |sigma/mu|
+            let (c, s) = std_norm();
+            let mut r = affine(c, s, g(0), (g(1) * g(0)).abs(), f64::NEG_INFINITY, f64::INFINITY);
+            r.extra_edges = vec![g(0)];
+            r
+        }
+        Fam::LogNormalMeanCv => {
+            // documented: linear-space mean m and cv: sigma^2 = ln(1+cv^2), mu = ln m - sigma^2/2
+            let (m, cv) = (g(0), g(1));
+            let s2 = (cv * cv).ln_1p();
+            let (mu, sa) = (m.ln() - 0.5 * s2, s2.sqrt());
+            if sa == 0.0 {
+                let mut r = RefLaw::cont(a1(move |x| if x >= m { 1.0 } else { 0.0 }), a1(move |x| if x >= m { 0.0 } else { 1.0 }), m, m);
+                r.loc = m;
+                return Some(r);
+            }
+            let mut r = RefLaw::cont(
+                a1(move |x| if x <= 0.0 { 0.0 } else { norm_cdf((x.ln() - mu) / sa) }),
+                a1(move |x| if x <= 0.0 { 1.0 } else { norm_sf((x.ln() - mu) / sa) }),
+                0.0,
+                f64::INFINITY,
+            );
+            r.extra_edges = vec![m];
+            r
+        }
+        Fam::PertMean => {
+            // documented: mean = (min + shape*mode + max)/(shape + 2)
+            let (min, max, mean, shape) = (g(0), g(1), g(2), g(3));
+            let mode = ((shape + 2.0) * mean - min - max) / shape;
+            let inner = Cell { fam: Fam::Pert, ft: cell.ft, p: vec![min, max, mode, shape], ip: vec![] };
+            return reflaw(&inner).map(|mut l| {
+                l.kappa = kappa(cell);
+                l
+            });
+        }
         Fam::Binomial => binomial_law(cell.ip[0], g(0)),
         Fam::Poisson => poisson_law(g(0)),
         Fam::Geometric => geometric_law(g(0)),
